@@ -301,15 +301,21 @@ func TestPropFace(t *testing.T) {
 			x, y := drawPpem(rt)
 			m.apply(faceOp{Kind: "set_ppem", Face: drawFaceIdx(rt), cfgOp: cfgOp{PpemX: x, PpemY: y}})
 		})
-		weighted(actions, "burst", 2, func(rt *rapid.T) {
-			// query, many settings changes in one step, the same query again
+		weighted(actions, "burst", 1, func(rt *rapid.T) {
+			// query, many settings changes in one step, the same query again (the enumerator
+			// TestEnumFaceWrap walks the sizes deterministically; here they meet random histories)
+			if rapid.IntRange(0, 2).Draw(rt, "doBurst") != 0 {
+				x, y := drawPpem(rt)
+				m.apply(faceOp{Kind: "set_ppem", Face: drawFaceIdx(rt), cfgOp: cfgOp{PpemX: x, PpemY: y}})
+				return
+			}
 			q := faceOp{Kind: "query", Face: drawFaceIdx(rt), GIDs: hot, What: qExtents | qHAdvance | qGlyphData}
 			if rapid.IntRange(0, 3).Draw(rt, "allQueries") == 0 {
 				q.What = qAll
 			}
 			m.apply(q)
 			setter, last, alt := drawSetterBurst(rt, pf)
-			m.apply(faceOp{Kind: "burst", Face: q.Face, Setter: setter, N: drawBurstN(rt, true), Alt: &alt, cfgOp: last})
+			m.apply(faceOp{Kind: "burst", Face: q.Face, Setter: setter, N: drawBurstN(rt, len(pf.GIDs) < 300), Alt: &alt, cfgOp: last})
 			m.apply(q)
 		})
 		rt.Repeat(actions)
